@@ -141,6 +141,85 @@ T = {
         "C15", "FileContent decoder adds an input-controlled length and the checksum length in u32 (crates/vault/src/encoding/secret.rs)",
         "an embedded-file buffer length prefix in 0xFFFFFFE0..=0xFFFFFFFF",
         ["C15 decode:Secret / FileContent: attempt to add with overflow"], "caught at first run"),
+    "C14-wire-datetime-nanos-split": (
+        "C14", "From<UtcDateTime> for WireUtcDateTime splits unix_timestamp_nanos with / and % (crates/protocol/src/bindings/common.rs)",
+        "a timestamp before 1970 with a non-zero sub-second part, sent over the wire",
+        ["C14 wire:UtcDateTime / wire:EventRecord: value changes in a wire round trip"], "caught at first run of the wire part"),
+    "C14-wire-syncdiff-filter-compare-none": (
+        "C14", "From<SyncDiff> for WireSyncDiff drops folder entries that are MaybeDiff::Compare(None) (crates/protocol/src/bindings/sync.rs)",
+        "a SyncDiff whose folders map holds a Compare entry with the inner state absent",
+        ["C14 wire:SyncDiff / wire:SyncPacket: value changes in a wire round trip"],
+        "MISSED at first: two structural deviations (other oneof arm + its optional payload absent) exceeded the variation budget "
+        "of large messages in the quick tier; one further deviation inside a non-canonical oneof arm is now free; caught"),
+    "C14-wire-tracked-file-deleted-as-created": (
+        "C14", "TryFrom<WireTrackedFileChange> builds Created in the Deleted arm (crates/protocol/src/bindings/sync.rs)",
+        "a TrackedFileChange::Deleted sent over the wire",
+        ["C14 wire:TrackedFileChange / TrackedChanges / MergeOutcome: a oneof arm changes in a wire round trip"],
+        "MISSED at first: the decoder's image no longer contains the value, so decode(encode(v)) == v over decoded values "
+        "cannot see it; the obligation that the sender's encoder puts the decoded value back into the oneof arms of the "
+        "message was added (count-preserving multiset comparison, so set de-duplication and map reordering do not alarm); caught"),
+    "C06-apply-skips-adjacent-identical": (
+        "C06", "apply_records skips a record whose commit equals the running head (crates/filesystem/src/event_log.rs)",
+        "two byte-identical events in adjacent positions",
+        ["C06 per-operation: tree after append is not the old leaves followed by the new commits"],
+        "first INCONCLUSIVE: the solver found it but the native confirmation only compared memory with the reloaded tree (both "
+        "lose the record); the native side now recomputes the expected records from the script; caught"),
+    "C06-apply-clamps-time": (
+        "C06", "apply_records clamps a record's time to the previous record's (crates/filesystem/src/event_log.rs)",
+        "records whose timestamps are not monotonic",
+        ["C06 per-operation: an appended record is stored with a timestamp other than its own"],
+        "MISSED at first (the per-operation harness compared trees only); the stored timestamp of every appended row is now an "
+        "obligation, natively the rows are parsed from the file; caught"),
+    "C08-contains-reports-head-position": (
+        "C08", "CommitTree::compare returns Contains([proof.length - 1]) instead of the proven indices (crates/core/src/commit/tree.rs)",
+        "compare against a single-leaf proof at a non-head index (what the ancestor scan sends)",
+        ["C08 compare(single-leaf proof)=Contains indices"],
+        "MISSED at first (compare was only exercised with head proofs); compare against every single-leaf proof of the other log "
+        "was added (verdict and reported index); caught"),
+    "C08-verify-leaves-shorter-replica-early-return": (
+        "C08", "CommitProof::verify_leaves returns false when the replica is shorter than the prover's tree (crates/core/src/commit/proof.rs)",
+        "a replica strictly shorter than the log the proof came from, the proven position inside it",
+        ["C08 verify_leaves completeness"], "caught at first run"),
+    "C02-insert-keeps-old-entry": (
+        "C02", "Vault::insert_secret keeps an existing entry (or_insert_with) but reports the new one (crates/vault/src/vault.rs)",
+        "creating a secret under an id that is currently live",
+        ["C02 vault step vs. reducer: entry differs"], "caught at first run"),
+    "C02-until-commit-skips-header-events": (
+        "C02", "FolderReducer::reduce `continue`s past the until-commit test for header events (crates/reducers/src/folder.rs)",
+        "new_until_commit(c) where c is a rename / flags / description event that is not the last record",
+        ["C02 replay-until-commit"], "caught at first run"),
+    "C12-compact-empty-folder-shortcut": (
+        "C12", "FolderReducer::compact returns the original CreateVault when no secret is live (crates/reducers/src/folder.rs)",
+        "a folder without live secrets whose log holds a rename, flags or description change",
+        ["C12 compaction equivalence (name / flags / meta differ)"], "caught at first run"),
+    "C12-compact-skip-off-by-one": (
+        "C12", "compact_folder skips the rewrite when compacted_len + 1 >= current_len (crates/backend/src/compact.rs)",
+        "a log with exactly one redundant record",
+        [],
+        "MISSED: crates/backend/src/compact.rs (temp event log, replace_all_events on either backend) is outside the C12 kernel, "
+        "which runs FolderReducer::compact and replays its events; recorded as a gap"),
+    "C20-prepare-guard-by-key": (
+        "C20", "SearchIndex::prepare guards duplicates with documents.contains_key(key) (the key includes the label) (crates/search/src/search.rs)",
+        "the same (folder, id) added again under a different label",
+        ["C20 documents differ from the live secrets / counters differ from a recount"], "caught at first run"),
+    "C20-tag-counter-threshold": (
+        "C20", "DocumentCount::remove drops a tag entry when the count goes 2 -> 1 (crates/search/src/search.rs)",
+        "a tag shared by exactly two documents, then one of them removed or updated",
+        ["C20 per-tag counters differ from a recount"],
+        "MISSED by the quick tier at first (needs add, add, remove: three operations; quick explored two); a slice of the "
+        "three-operation histories (two adds, then any operation) joined the quick tier; caught (thorough had it)"),
+    "C05-dedup-adjacent-only": (
+        "C05", "merge_patches de-duplicates with sort + dedup_by(commit) (adjacent copies only) (crates/remote_sync/src/auto_merge.rs)",
+        "the same event on both sides with different timestamps and another event sorting between the copies",
+        ["C05 a commit made identically on both sides appears twice in the merged patch"],
+        "first UNCOVERED (Vec::dedup_by unmodelled); model added and validated by the self-test; caught"),
+    "C05-tie-break-by-hash": (
+        "C05", "merge_patches breaks timestamp ties by commit hash (crates/remote_sync/src/auto_merge.rs)",
+        "two records of one device with exactly equal timestamps whose hash order differs from their log order",
+        ["C05 two records of one side with the same timestamp come out in the opposite of their log order"],
+        "MISSED at first twice: Ordering::then_with and the ordering of hash values were unmodelled, and the oracle had no "
+        "obligation about ties; both added (the first version of the obligation alarmed on the clean tree for a record "
+        "de-duplicated against a copy with another timestamp and was narrowed to records unique to their side); caught"),
 }
 
 
@@ -154,7 +233,7 @@ def main():
             continue
         prop, fn, needs, caught, story = T[sid]
         meta = {"id": sid, "property": prop, "changed": fn, "needs_to_manifest": needs,
-                "caught_by": caught, "history": story, "procedure": PROCEDURE,
+                "caught_by": caught if caught else "not caught (recorded gap)", "history": story, "procedure": PROCEDURE,
                 "files": sorted(f for f in os.listdir(d) if f != "meta.json")}
         cj = os.path.join(d, "confirm.json")
         if os.path.exists(cj):
